@@ -29,6 +29,7 @@ CFG = """CONSTANTS
  Shapes = %(shapes)s
  InputVals = %(invals)s
  Emit = TRUE
+ EmitMod = %(mod)d
 INIT Init
 NEXT Next
 INVARIANT TypeOK
@@ -92,9 +93,9 @@ def judge_real(run, net, v0, model, where):
         run.drift_note('sorter order differs from Kernel!SortPass on an accepted netlist (still at fixpoint)')
 
 
-def part_a(run, n, p, shapes, invals, maxpasses):
+def part_a(run, n, p, shapes, invals, maxpasses, mod=1):
     cfg = CFG % dict(n=n, p=p, shapes='{' + ','.join('"%s"' % s for s in shapes) + '}',
-                     invals='{' + ','.join(map(str, invals)) + '}', maxpasses=maxpasses)
+                     invals='{' + ','.join(map(str, invals)) + '}', maxpasses=maxpasses, mod=mod)
     res = run_tlc('MC_Sort', cfg, run.scratch / 'mcsort', timeout=3000)
     if res.violated:
         # the model of the code breaks the property: confirm on the real code
@@ -308,6 +309,98 @@ def undriven(net):
     return set(range(1, len(net['width']) + 1)) - d
 
 
+# ------------------------------------------------------------------ part D: late additions
+def phased(rng, net, v0, split, nested, mid_clk):
+    """the same netlist built in two phases: leaves [0, split) first, getSimulator() (and perhaps a clock call), then the
+    remaining leaves, added at the top level or (nested) inside a structural block that already exists, then
+    getSimulator() again.  Returns (extracted net, v0 in its wire numbering, status, order, vals after clk(1))."""
+    import py4hw
+    with quiet():
+        hw = py4hw.HWSystem()
+        wires = [hw.wire('w%d' % (k + 1), w) for k, w in enumerate(net['width'])]
+        for k, v in enumerate(v0):
+            if v:
+                wires[k].put(v)
+        late_parent = hw
+        if nested:
+            late_parent = py4hw.Logic(hw, 'blk')
+        for b, lf in enumerate(net['leaves'][:split]):
+            # with a nested block, its first member is created before the simulator exists (an empty block would be a leaf)
+            parent = late_parent if (nested and b == split - 1) else hw
+            netlist.make_leaf(parent, 'l%d' % (b + 1), lf['kind'], [wires[i - 1] for i in lf['ins']], [wires[i - 1] for i in lf['outs']], lf.get('p', []))
+        try:
+            sim = hw.getSimulator()
+            if mid_clk:
+                sim.clk(1)
+        except Exception:
+            return None
+        for b, lf in enumerate(net['leaves'][split:], start=split):
+            netlist.make_leaf(late_parent, 'l%d' % (b + 1), lf['kind'], [wires[i - 1] for i in lf['ins']], [wires[i - 1] for i in lf['outs']], lf.get('p', []))
+        xnet, xw = netlist.extract(hw)
+        pos = {id(w): k for k, w in enumerate(xw)}
+        xv0 = [0] * len(xw)
+        for k, v in enumerate(v0):
+            if id(wires[k]) in pos:
+                xv0[pos[id(wires[k])]] = v
+        leaves = hw.allLeaves()
+        try:
+            sim = hw.getSimulator()
+            order = [prop_index(leaves, o) for o in sim.propagatables]
+            sim.clk(1)
+            vals = [w.get() for w in xw]
+            return xnet, xv0, 'idle', order, vals
+        except Exception:
+            return xnet, xv0, 'raised', [], []
+
+
+def part_d(run, count, sizes):
+    """getSimulator() on a system that already has a simulator re-sorts the whole netlist (HWSystem.getSimulator): cells added
+    after the first call - at the top level or deep inside an existing block - must be evaluated, in dependency order,
+    from the next clock call on.  Judged by Trace_Sort exactly like a netlist built in one go."""
+    rng = random.Random(run.seed + 4)
+    traces, meta = [], []
+    for t in range(count):
+        n = rng.choice(sizes)
+        net = random_net(rng, n, 2, rng.choice([0.0, 0.0, 0.0, 0.3]))
+        v0 = [rng.randrange(4) if k < 2 else 0 for k in range(len(net['width']))]
+        split = rng.randrange(1, n)
+        nested = rng.random() < 0.6
+        out = phased(rng, net, v0, split, nested, rng.random() < 0.5)
+        if out is None:
+            continue            # the first part alone was refused (it contains a cycle itself)
+        xnet, xv0, status, order, vals = out
+        traces.append({'net': strip(xnet), 'v0': xv0, 'status': status, 'order': order, 'vals': vals})
+        meta.append(('late:%s' % ('nested' if nested else 'top'), xnet, xv0, status, order, vals, split))
+    if not traces:
+        raise MachineryError('part D recorded nothing')
+    tf = run.scratch / 'late_traces.json'
+    tf.write_text(json.dumps(traces))
+    cfg = 'CONSTANTS\n MaxPasses = 1000\nINIT Init\nNEXT Next\nINVARIANT TypeOK\n'
+    res = run_tlc('Trace_Sort', cfg, run.scratch / 'trlate', env={'TRACE_FILE': str(tf)}, timeout=3000)
+    run.add_tlc(res)
+    judged = {rec[1] for rec in res.records if rec[0] == 'J'}
+    if len(judged) != len(traces):
+        raise MachineryError('Trace_Sort judged %d of %d late-addition traces' % (len(judged), len(traces)))
+    for rec in res.records:
+        if rec[0] != 'V':
+            continue
+        what, xnet, xv0, status, order, vals, split = meta[rec[1] - 1]
+        wit = {'origin': what, 'net': xnet, 'v0': xv0, 'built_before_first_getSimulator': split,
+               'real': {'status': status, 'order': order, 'vals_after_clk': vals}}
+        if rec[2] == 'cyclic-accepted':
+            run.violation('C04:cyclic-accepted:' + what, wit, 'combinational cycle closed by cells added after the first getSimulator() is accepted')
+        elif rec[2] == 'acyclic-refused':
+            run.violation('C04:acyclic-refused:' + what, wit, 'acyclic netlist refused at the second getSimulator()')
+        else:
+            run.violation('C04:off-fixpoint:' + what, wit,
+                          'after adding cells to a simulated system, getSimulator() and clk(1): wires not at the fixpoint (%s)' % rec[2])
+    for m in meta:
+        run.count()
+        run.nontrivial('late' + json.dumps([[l['kind'], l['ins']] for l in m[1]['leaves']]) + str(m[6]))
+    run.cov['traces_validated_against_impl'] += len(traces)
+    run.note('late_addition_cases', len(traces))
+
+
 # ------------------------------------------------------------------ part C
 def reversed_chain(n, reverse=True):
     import py4hw
@@ -352,12 +445,14 @@ def check(run):
         part_a(run, 2, 1, ['And2', 'Or2', 'Not', 'Buf', 'BitsLSBF', 'Constant'], [0, 1, 2, 3], 5)
         part_b(run, 1500, 150, [4, 5, 6, 8, 12])
         part_c(run, [3, 10, 50, 200], 1001)
+        part_d(run, 400, [3, 4, 5, 6, 8])
     else:
         part_a(run, 3, 1, ['And2', 'Or2', 'Not', 'Buf', 'BitsLSBF', 'Constant'], [1, 2], 6)
-        part_a(run, 4, 1, ['And2', 'Not'], [2], 7)
-        part_a(run, 4, 1, ['Not', 'BitsLSBF', 'Constant'], [1, 2], 7)
+        part_a(run, 4, 1, ['And2', 'Not'], [2], 7, mod=16)
+        part_a(run, 4, 1, ['Not', 'BitsLSBF', 'Constant'], [1, 2], 7, mod=4)
         part_b(run, 30000, 2000, [4, 5, 6, 8, 12, 20, 40])
         part_c(run, [3, 10, 50, 200, 500, 999, 1000], 1001)
+        part_d(run, 6000, [3, 4, 5, 6, 8, 12, 20])
     run.assumptions += ['wire values of the model are at most 2 bits; py4hw has no width-dependent path in the sorter',
                         'model MaxPasses is N+3 for exhaustive runs (TLC shows acyclic netlists need at most N+1 passes); '
                         'every cyclic netlist is additionally replayed on the real sorter with its limit of 1000']
